@@ -1,6 +1,7 @@
 package checks
 
 import (
+	"crypto/sha256"
 	"fmt"
 	"testing"
 
@@ -116,6 +117,48 @@ func execC05(r *kernel.Run, s C05Spec) {
 	if !sig.Verify(pk, ms) {
 		r.Violate("C05:valid-signature-rejected", map[string]any{"stage": "fresh"}, "fresh signature over a block of %d messages does not verify", len(ms))
 		return
+	}
+	// reference equation, computed without the library's representation code: Z = A^e S^v prod R_i^{m_i'},
+	// m_i' = SHA-256(m_i) for messages longer than Lm bits
+	refOK := func(sg *gabi.CLSignature, block []*big.Int) bool {
+		acc := new(big.Int).Exp(sg.A, sg.E, pk.N)
+		acc.Mul(acc, new(big.Int).Exp(pk.S, sg.V, pk.N)).Mod(acc, pk.N)
+		for i, m := range block {
+			e := m
+			if uint(m.BitLen()) > pk.Params.Lm {
+				h := sha256.Sum256(m.Bytes())
+				e = new(big.Int).SetBytes(h[:])
+			}
+			acc.Mul(acc, new(big.Int).Exp(pk.R[i], e, pk.N)).Mod(acc, pk.N)
+		}
+		return acc.Cmp(new(big.Int).Mod(pk.Z, pk.N)) == 0
+	}
+	nOver := 0
+	hashedBlock := make([]*big.Int, len(ms))
+	for i, m := range ms {
+		hashedBlock[i] = m
+		if uint(m.BitLen()) > pk.Params.Lm {
+			nOver++
+			h := sha256.Sum256(m.Bytes())
+			hashedBlock[i] = new(big.Int).SetBytes(h[:])
+		}
+	}
+	r.Probe(fmt.Sprintf("oversized-messages-in-block:%d", min(nOver, 3)))
+	if !refOK(sig, ms) {
+		r.Violate("C05:signature-equation-violated", map[string]any{"oversized": nOver}, "fresh signature over a block of %d messages (%d oversized) verifies but does not satisfy Z = A^e S^v prod R_i^m_i with oversized m_i replaced by their SHA-256 hash", len(ms), nOver)
+		return
+	}
+	if nOver > 0 {
+		// a message and its hash are the same message to the scheme
+		r.Eval(1)
+		if !sig.Verify(pk, hashedBlock) {
+			r.Violate("C05:valid-signature-rejected", map[string]any{"stage": "hashed-block"}, "signature over a block with %d oversized messages is refused for the block of their hashes", nOver)
+			return
+		}
+		if hs, err := gabi.SignMessageBlock(key.Sk, pk, hashedBlock); err == nil && !hs.Verify(pk, ms) {
+			r.Violate("C05:valid-signature-rejected", map[string]any{"stage": "signed-hashed-block"}, "signature over the block of hashes is refused for the block with the %d oversized messages themselves", nOver)
+			return
+		}
 	}
 	cur := sig
 	for i := 0; i < s.Rerand; i++ {
